@@ -28,7 +28,7 @@ class Gen:
         self.dl = "DL" in L
         if "UF" in L and L != "QF_BOOL":
             self.usort = "U"
-            self.uvars = ["a%d" % i for i in range(rng.randint(2, 4))]
+            self.uvars = ["a%d" % i for i in range(rng.randint(3, 5))]
             self.ufuns = [("f", 1), ("g", 2)][: rng.randint(1, 2)]
             self.upreds = [("q", 1)] if rng.random() < 0.7 else []
             if self.num:
@@ -203,10 +203,11 @@ def gen_script(rng, logic=None, incremental=False, options=(), produce_models=Tr
             b = rng.choice(g.boolvars)
             return rng.choice([b, "(not %s)" % b, "(= %s %s)" % (b, g.formula(2)), "false", "(and %s (not %s))" % (b, b)])
         if k < 0.75 and g.usort and len(g.uvars) >= 3:
-            vs = [rng.choice(g.uvars) for _ in range(4)]
+            vs = rng.sample(g.uvars, 4) if len(g.uvars) >= 4 else [rng.choice(g.uvars) for _ in range(4)]
             x, w, y, z = vs
             dia = "(and (= %s %s) (= %s %s)) (and (= %s %s) (= %s %s))" % (x, w, w, z, x, y, y, z)
-            extra = "" if rng.random() < 0.5 else " " + g.formula(1)
+            # a further disjunct that is a NEW compound term (created after the diamond, so it sorts behind it)
+            extra = "" if rng.random() < 0.4 else " (= %s %s)" % (g.uterm(2), g.uterm(1))
             return "(or %s%s)" % (dia, extra)
         if k < 0.85 and g.num and not g.dl:
             return "(%s (ite %s (ite %s %s %s) %s) %s)" % (rng.choice(["<=", "=", "<"]), g.formula(1), g.formula(1), g.nterm(1), g.nterm(1), g.nterm(1), g.nterm(1))
